@@ -154,6 +154,10 @@ type Frame struct {
 	ClosureFrame *Frame
 	depth        int
 	id           string
+	// phiSel: on this path the phi was entered through the given edge (set by the path explorer; see Explorer.TrackPhi)
+	phiSel map[*ssa.Phi]int
+	// retSel: on this path the repository callee of the call returned through the return of the given block
+	retSel map[*ssa.Call]int
 }
 
 func (f *Frame) ID() string {
@@ -173,24 +177,39 @@ func (f *Frame) inChain(fn *ssa.Function) bool {
 }
 
 type Terms struct {
-	W       *World
-	memo    map[string]*Term
-	busy    map[string]bool
-	roots   map[*ssa.Function]*Frame
-	allocs  map[*ssa.Alloc]*allocInfo
-	pwrites map[*ssa.Function]map[int][]paramWrite
-	frames  map[string]*Frame
+	rootBusy map[*ssa.Function]bool
+	soleCS   map[*ssa.Function]ssa.CallInstruction
+	W        *World
+	memo     map[string]*Term
+	busy     map[string]bool
+	roots    map[*ssa.Function]*Frame
+	allocs   map[*ssa.Alloc]*allocInfo
+	pwrites  map[*ssa.Function]map[int][]paramWrite
+	frames   map[string]*Frame
 }
 
 func NewTerms(w *World) *Terms {
 	return &Terms{W: w, memo: map[string]*Term{}, busy: map[string]bool{}, roots: map[*ssa.Function]*Frame{},
-		allocs: map[*ssa.Alloc]*allocInfo{}, pwrites: map[*ssa.Function]map[int][]paramWrite{}, frames: map[string]*Frame{}}
+		allocs: map[*ssa.Alloc]*allocInfo{}, pwrites: map[*ssa.Function]map[int][]paramWrite{}, frames: map[string]*Frame{},
+		rootBusy: map[*ssa.Function]bool{}, soleCS: map[*ssa.Function]ssa.CallInstruction{}}
 }
 
 // Root returns the root frame of fn (parameters are symbolic).
 func (tm *Terms) Root(fn *ssa.Function) *Frame {
 	if f := tm.roots[fn]; f != nil {
 		return f
+	}
+	// an unexported helper with a single call site is analysed in the context of that call: what it is handed through
+	// its parameters is what its one caller passes (outlining a block into such a helper changes nothing observable)
+	if cs := tm.soleCallSite(fn); cs != nil && !tm.rootBusy[fn] {
+		tm.rootBusy[fn] = true
+		parent := tm.Root(cs.Parent())
+		delete(tm.rootBusy, fn)
+		if !parent.inChain(fn) && parent.depth < maxCtxDepth {
+			f := tm.Enter(parent, cs, fn)
+			tm.roots[fn] = f
+			return f
+		}
 	}
 	f := &Frame{Fn: fn, id: "R:" + fn.String()}
 	tm.roots[fn] = f
@@ -213,6 +232,45 @@ func (tm *Terms) Root(fn *ssa.Function) *Frame {
 	return f
 }
 
+// soleCallSite: fn is an unexported, non-closure repository function (outside the simulation package) with exactly one
+// static call site in the repository and no other use of its value; nil otherwise.
+func (tm *Terms) soleCallSite(fn *ssa.Function) ssa.CallInstruction {
+	if v, ok := tm.soleCS[fn]; ok {
+		return v
+	}
+	tm.soleCS[fn] = nil
+	if fn.Parent() != nil || fn.Blocks == nil || tm.W.isGenerated(fn) {
+		return nil
+	}
+	obj, _ := fn.Object().(*types.Func)
+	if obj == nil || obj.Exported() {
+		return nil
+	}
+	if p := pkgOf(fn); p == nil || !tm.W.isRepoPkg(p) || p.Path() == simPath {
+		return nil
+	}
+	var sites []ssa.CallInstruction
+	for _, cs := range tm.W.callSitesOf(fn) {
+		if p := pkgOf(cs.Parent()); p != nil && p.Path() == simPath {
+			continue
+		}
+		sites = append(sites, cs)
+	}
+	if len(sites) != 1 || sites[0].Parent() == fn {
+		return nil
+	}
+	// the function value must not be used other than by that call (method values, callbacks)
+	if refs := fn.Referrers(); refs != nil {
+		for _, r := range *refs {
+			if r != sites[0].(ssa.Instruction) {
+				return nil
+			}
+		}
+	}
+	tm.soleCS[fn] = sites[0]
+	return sites[0]
+}
+
 // Enter returns the frame of callee entered from call in parent.
 func (tm *Terms) Enter(parent *Frame, call ssa.CallInstruction, callee *ssa.Function) *Frame {
 	id := parent.id + "/" + fmt.Sprintf("%p", call) + ">" + callee.String()
@@ -231,6 +289,31 @@ func (tm *Terms) Enter(parent *Frame, call ssa.CallInstruction, callee *ssa.Func
 	}
 	tm.frames[id] = f
 	return f
+}
+
+// SelFrame returns fr specialised to a path on which the given phis were entered through the given edges.
+func (tm *Terms) SelFrame(fr *Frame, sel map[*ssa.Phi]int, rsel map[*ssa.Call]int) *Frame {
+	if len(sel) == 0 && len(rsel) == 0 {
+		return fr
+	}
+	var ks []string
+	for ph, i := range sel {
+		ks = append(ks, fmt.Sprintf("%s=%d", ph.Name(), i))
+	}
+	for c, i := range rsel {
+		ks = append(ks, fmt.Sprintf("%s>%d", c.Name(), i))
+	}
+	sort.Strings(ks)
+	id := fr.id + "#" + strings.Join(ks, ",")
+	if f := tm.frames[id]; f != nil {
+		return f
+	}
+	c := *fr
+	c.id = id
+	c.phiSel = sel
+	c.retSel = rsel
+	tm.frames[id] = &c
+	return &c
 }
 
 // EnterClosure returns the frame for running closure mc (made in frame at)
@@ -318,6 +401,8 @@ type allocDef struct {
 	kind   string        // "zero" | "store" | "havoc" | "pwrite"
 	val    ssa.Value     // store: stored value; pwrite: value inside callee
 	callee *ssa.Function // pwrite
+	chain  []pwStep      // pwrite: further calls inside the callee before the store
+	weak   bool          // pwrite that does not happen on every returning path of the callee
 }
 
 type allocInfo struct {
@@ -329,24 +414,48 @@ type allocInfo struct {
 	in map[ssa.Instruction]map[string][]int
 	// all values ever stored (for escaping cells)
 	stored []ssa.Value
+	// values stored by closures that capture the variable
+	storedIn []closureStore
+}
+
+type closureStore struct {
+	fn  *ssa.Function
+	val ssa.Value
+}
+
+type pwStep struct {
+	instr  ssa.CallInstruction
+	callee *ssa.Function
 }
 
 type paramWrite struct {
-	path []string
-	val  ssa.Value
+	path  []string
+	val   ssa.Value // nil: the pointer is handed to code that cannot be summarised
+	chain []pwStep  // calls (inside the summarised function) through which the pointer travels before the store
+	must  bool      // the store happens on every returning path
 }
 
-// paramWrites: for a repository function, the fields it stores through each
-// pointer parameter (only direct stores; passing the pointer on makes it "opaque").
+// paramWrites: for a repository function, the fields it stores through each pointer parameter, directly or by handing
+// the pointer on to another repository function (transitively); handing it to anything else makes it "opaque".
 func (tm *Terms) paramWrites(fn *ssa.Function) map[int][]paramWrite {
 	if r, ok := tm.pwrites[fn]; ok {
 		return r
 	}
 	res := map[int][]paramWrite{}
-	tm.pwrites[fn] = res
+	tm.pwrites[fn] = res // recursion: a cycle sees the partial summary
 	pidx := map[*ssa.Parameter]int{}
 	for i, p := range fn.Params {
 		pidx[p] = i
+	}
+	onAllReturns := func(in ssa.Instruction) bool {
+		for _, b := range fn.Blocks {
+			if _, ok := b.Instrs[len(b.Instrs)-1].(*ssa.Return); ok {
+				if !(b == in.Block() || in.Block().Dominates(b)) {
+					return false
+				}
+			}
+		}
+		return true
 	}
 	for _, b := range fn.Blocks {
 		for _, in := range b.Instrs {
@@ -354,14 +463,34 @@ func (tm *Terms) paramWrites(fn *ssa.Function) map[int][]paramWrite {
 			case *ssa.Store:
 				root, path := addrRoot(x.Addr)
 				if p, ok := root.(*ssa.Parameter); ok {
-					res[pidx[p]] = append(res[pidx[p]], paramWrite{path: path, val: x.Val})
+					res[pidx[p]] = append(res[pidx[p]], paramWrite{path: path, val: x.Val, must: onAllReturns(in)})
 				}
 			case ssa.CallInstruction:
-				for _, a := range x.Common().Args {
+				cc := x.Common()
+				var args []ssa.Value
+				if cc.IsInvoke() {
+					args = append(args, cc.Value)
+				}
+				args = append(args, cc.Args...)
+				for j, a := range args {
 					root, path := addrRoot(a)
-					if p, ok := root.(*ssa.Parameter); ok && isPointer(p.Type()) {
-						res[pidx[p]] = append(res[pidx[p]], paramWrite{path: append(path, "*opaque*"), val: nil})
+					p, ok := root.(*ssa.Parameter)
+					if !ok || !isPointer(p.Type()) {
+						continue
 					}
+					callee := cc.StaticCallee()
+					if callee != nil && callee.Blocks != nil && tm.W.isRepoPkg(pkgOf(callee)) && callee != fn {
+						for _, w := range tm.paramWrites(callee)[j] {
+							nw := paramWrite{path: append(append([]string{}, path...), w.path...), val: w.val,
+								chain: append([]pwStep{{x, callee}}, w.chain...), must: w.must && onAllReturns(in)}
+							res[pidx[p]] = append(res[pidx[p]], nw)
+						}
+						continue
+					}
+					if tm.readOnlyCallee(cc) {
+						continue
+					}
+					res[pidx[p]] = append(res[pidx[p]], paramWrite{path: append(path, "*opaque*"), val: nil})
 				}
 			}
 		}
@@ -427,6 +556,21 @@ func (tm *Terms) allocInfoOf(a *ssa.Alloc) *allocInfo {
 				}
 			case *ssa.MakeClosure:
 				ai.escapes = true
+				// the closure may assign the captured variable: those values belong to the cell as well
+				if cfn, ok := x.Fn.(*ssa.Function); ok && len(path) == 0 {
+					for bi, bv := range x.Bindings {
+						if bv != addr || bi >= len(cfn.FreeVars) {
+							continue
+						}
+						if frefs := cfn.FreeVars[bi].Referrers(); frefs != nil {
+							for _, fr := range *frefs {
+								if st, ok := fr.(*ssa.Store); ok && st.Addr == ssa.Value(cfn.FreeVars[bi]) {
+									ai.storedIn = append(ai.storedIn, closureStore{fn: cfn, val: st.Val})
+								}
+							}
+						}
+					}
+				}
 			case *ssa.Phi:
 				ai.escapes = true
 			case ssa.CallInstruction:
@@ -455,7 +599,7 @@ func (tm *Terms) allocInfoOf(a *ssa.Alloc) *allocInfo {
 							}
 							p := append(append([]string{}, path...), wri.path...)
 							addKey(p)
-							ai.defs = append(ai.defs, &allocDef{instr: in, path: p, kind: "pwrite", val: wri.val, callee: callee})
+							ai.defs = append(ai.defs, &allocDef{instr: in, path: p, kind: "pwrite", val: wri.val, callee: callee, chain: wri.chain, weak: !wri.must})
 							defAt[in] = append(defAt[in], len(ai.defs)-1)
 						}
 					}
@@ -467,7 +611,30 @@ func (tm *Terms) allocInfoOf(a *ssa.Alloc) *allocInfo {
 					ai.defs = append(ai.defs, &allocDef{instr: in, path: path, kind: "havoc"})
 					defAt[in] = append(defAt[in], len(ai.defs)-1)
 				}
-			case *ssa.Return, *ssa.MakeInterface, *ssa.ChangeType, *ssa.Convert, *ssa.BinOp, *ssa.TypeAssert, *ssa.DebugRef, *ssa.Slice, *ssa.Range, *ssa.Lookup, *ssa.Index, *ssa.Field, *ssa.Extract, *ssa.MapUpdate, *ssa.Defer, *ssa.Go, *ssa.Send, *ssa.Panic, *ssa.If:
+			case *ssa.MakeInterface:
+				uses[in] = true
+				if x.X != addr {
+					break
+				}
+				// the address travels as an interface value (e.g. a proto.Message handed to a decoder): a call that
+				// receives it may write anything through it; any other use lets it escape
+				if irefs := x.Referrers(); irefs != nil {
+					for _, ir := range *irefs {
+						switch y := ir.(type) {
+						case ssa.CallInstruction:
+							if tm.readOnlyCallee(y.Common()) {
+								continue
+							}
+							addKey(path)
+							ai.defs = append(ai.defs, &allocDef{instr: ir, path: path, kind: "havoc"})
+							defAt[ir] = append(defAt[ir], len(ai.defs)-1)
+						case *ssa.DebugRef:
+						default:
+							ai.escapes = true
+						}
+					}
+				}
+			case *ssa.Return, *ssa.ChangeType, *ssa.Convert, *ssa.BinOp, *ssa.TypeAssert, *ssa.DebugRef, *ssa.Slice, *ssa.Range, *ssa.Lookup, *ssa.Index, *ssa.Field, *ssa.Extract, *ssa.MapUpdate, *ssa.Defer, *ssa.Go, *ssa.Send, *ssa.Panic, *ssa.If:
 				uses[in] = true
 				switch in.(type) {
 				case *ssa.MapUpdate, *ssa.Send, *ssa.Go, *ssa.Defer:
@@ -517,7 +684,7 @@ func (tm *Terms) allocInfoOf(a *ssa.Alloc) *allocInfo {
 	}
 	apply := func(s state, di int) {
 		d := ai.defs[di]
-		weak := false
+		weak := d.weak
 		for _, p := range d.path {
 			if p == "[]" {
 				weak = true // element store with a computed index: may be any element
@@ -777,6 +944,9 @@ func (tm *Terms) build(fr *Frame, v ssa.Value) *Term {
 	case *ssa.BinOp:
 		return mk("binop", x.Op.String(), v, tm.Of(fr, x.X), tm.Of(fr, x.Y))
 	case *ssa.Phi:
+		if i, ok := fr.phiSel[x]; ok && i < len(x.Edges) {
+			return tm.Of(fr, x.Edges[i])
+		}
 		var alts []*Term
 		self := mk("rec", x.Name(), x).Key()
 		for _, e := range x.Edges {
@@ -948,6 +1118,27 @@ func isGetterLike(c *ssa.CallCommon) bool {
 	return o != nil && strings.HasPrefix(o.Name(), "Get") && len(c.Args) <= 1
 }
 
+// indexAddrsOf: the IndexAddr steps of an address chain, outermost first (in the order addrRoot lists "[]" path steps).
+func indexAddrsOf(addr ssa.Value) []*ssa.IndexAddr {
+	var rev []*ssa.IndexAddr
+	for {
+		switch x := addr.(type) {
+		case *ssa.FieldAddr:
+			addr = x.X
+			continue
+		case *ssa.IndexAddr:
+			rev = append(rev, x)
+			addr = x.X
+			continue
+		}
+		break
+	}
+	for i, j := 0, len(rev)-1; i < j; i, j = i+1, j-1 {
+		rev[i], rev[j] = rev[j], rev[i]
+	}
+	return rev
+}
+
 // load resolves *addr.
 func (tm *Terms) load(fr *Frame, ld *ssa.UnOp) *Term {
 	root, path := addrRoot(ld.X)
@@ -977,7 +1168,29 @@ func (tm *Terms) load(fr *Frame, ld *ssa.UnOp) *Term {
 		return tm.index(fr, ld, ia.X, ia.Index)
 	}
 	t := tm.Of(fr, root)
-	// nested IndexAddr inside a path is rare; treat "[]" as elem
+	// fields of an element: &s[i].F — keep the index (the element term is the same as for a copy of s[i])
+	if idxs := indexAddrsOf(ld.X); len(idxs) > 0 {
+		k := 0
+		for _, p := range path {
+			if p == "[]" && k < len(idxs) {
+				ia := idxs[k]
+				k++
+				switch {
+				case isLastIndex(ia.Index, ia.X):
+					t = mk("last", "", ld, t)
+				default:
+					if c, ok := ia.Index.(*ssa.Const); ok {
+						t = elemOf(t, constKey(c), ld)
+					} else {
+						t = mk("elem", "", ld, t, tm.Of(fr, ia.Index))
+					}
+				}
+				continue
+			}
+			t = pathStep(t, p, ld)
+		}
+		return t
+	}
 	for _, p := range path {
 		t = pathStep(t, p, ld)
 	}
@@ -1023,6 +1236,9 @@ func (tm *Terms) snapshot(fr *Frame, a *ssa.Alloc, path []string, at ssa.Instruc
 			for _, sv := range ai.stored {
 				alts = append(alts, tm.Of(fr, sv))
 			}
+			for _, cs := range ai.storedIn {
+				alts = append(alts, tm.Of(tm.Root(cs.fn), cs.val))
+			}
 			delete(tm.busy, k)
 			if len(alts) == 0 {
 				alts = append(alts, mk("zero", "", a))
@@ -1064,6 +1280,9 @@ func (tm *Terms) snapAt(fr *Frame, ai *allocInfo, st map[string][]int, path []st
 			base = mk("havoc", tm.W.instrPos(d.instr), ai.alloc)
 		case "pwrite":
 			cf := tm.Enter(fr, d.instr.(ssa.CallInstruction), d.callee)
+			for _, st := range d.chain {
+				cf = tm.Enter(cf, st.instr, st.callee)
+			}
 			base = tm.Of(cf, d.val)
 		}
 		for _, p := range path[len(d.path):] {
@@ -1192,10 +1411,32 @@ func (tm *Terms) call(fr *Frame, c *ssa.Call) *Term {
 	return oc
 }
 
-func dirty(t *Term) bool {
+func dirty(t *Term) bool { return dirtyFor(t, nil) }
+
+// dirtyFor: t mentions state that cannot be described outside the callee frame cf — a local variable, captured cell,
+// havoc or unknown of the callee (or of something it called). State of the callers (flowing in through arguments) is
+// the callers' own and stays describable.
+func dirtyFor(t *Term, cf *Frame) bool {
+	callerFn := func(fn *ssa.Function) bool {
+		if cf == nil || fn == nil {
+			return false
+		}
+		for f := cf.Parent; f != nil; f = f.Parent {
+			if f.Fn == fn {
+				return true
+			}
+			if f.ClosureFrame != nil && f.ClosureFrame.Fn == fn {
+				return true
+			}
+		}
+		return false
+	}
 	return t.Any(func(x *Term) bool {
 		switch x.Op {
 		case "allocref", "cellref", "cell", "unknown", "havoc", "free":
+			if v, ok := x.V.(ssa.Instruction); ok && callerFn(v.Parent()) {
+				return false
+			}
 			return true
 		}
 		return false
@@ -1211,13 +1452,34 @@ func (tm *Terms) inlineResult(cf *Frame, c *ssa.Call, oc *Term) *Term {
 		return nil
 	}
 	per := make([][]*Term, nres)
+	only, haveOnly := -1, false
+	if cf.Parent != nil {
+		only, haveOnly = cf.Parent.retSel[c]
+	}
 	for _, b := range fn.Blocks {
 		ret, ok := b.Instrs[len(b.Instrs)-1].(*ssa.Return)
 		if !ok {
 			continue
 		}
+		if haveOnly && b.Index != only {
+			continue // on this path the callee returned elsewhere
+		}
+		failing := nres >= 2 && isErrorType(fn.Signature.Results().At(nres-1).Type()) && definitelyNonNilErr(ret, ret.Results[nres-1])
 		for i, r := range ret.Results {
+			if failing && i < nres-1 {
+				continue // `return zero, err`: by convention the other results of a failing return are meaningless
+			}
 			per[i] = append(per[i], tm.OperandAt(cf, ret, r))
+		}
+	}
+	for i := range per {
+		if len(per[i]) == 0 && i < nres-1 && len(per[nres-1]) > 0 {
+			// every return fails: describe the values anyway
+			for _, b := range fn.Blocks {
+				if ret, ok := b.Instrs[len(b.Instrs)-1].(*ssa.Return); ok {
+					per[i] = append(per[i], tm.OperandAt(cf, ret, ret.Results[i]))
+				}
+			}
 		}
 	}
 	var outs []*Term
@@ -1226,7 +1488,7 @@ func (tm *Terms) inlineResult(cf *Frame, c *ssa.Call, oc *Term) *Term {
 			return nil // no return (always panics)
 		}
 		t := mkPhi(c, per[i]...)
-		if dirty(t) {
+		if dirtyFor(t, cf) {
 			if nres == 1 {
 				return nil
 			}
@@ -1238,4 +1500,61 @@ func (tm *Terms) inlineResult(cf *Frame, c *ssa.Call, oc *Term) *Term {
 		return outs[0]
 	}
 	return mk("tuple", "", c, outs...)
+}
+
+// definitelyNonNilErr: the error value e returned by ret cannot be nil — it is built by an error constructor, is a
+// sentinel variable, or the return is only reached through the non-nil branch of a test of e (or of the error it wraps).
+func definitelyNonNilErr(ret *ssa.Return, e ssa.Value) bool {
+	if c, ok := e.(*ssa.Const); ok {
+		return !c.IsNil()
+	}
+	guarded := func(v ssa.Value) bool {
+		b := ret.Block()
+		for d := b; d != nil; d = d.Idom() {
+			id := d.Idom()
+			if id == nil {
+				break
+			}
+			iff, ok := id.Instrs[len(id.Instrs)-1].(*ssa.If)
+			if !ok {
+				continue
+			}
+			bo, ok := iff.Cond.(*ssa.BinOp)
+			if !ok || (bo.Op != token.NEQ && bo.Op != token.EQL) {
+				continue
+			}
+			isNil := func(x ssa.Value) bool { c, ok := x.(*ssa.Const); return ok && c.IsNil() }
+			if !((bo.X == v && isNil(bo.Y)) || (bo.Y == v && isNil(bo.X))) {
+				continue
+			}
+			nonNilSucc := id.Succs[0]
+			if bo.Op == token.EQL {
+				nonNilSucc = id.Succs[1]
+			}
+			// d is reached from id only through nonNilSucc when nonNilSucc dominates d and has id as its only predecessor
+			if (nonNilSucc == d || nonNilSucc.Dominates(d)) && len(nonNilSucc.Preds) == 1 {
+				return true
+			}
+		}
+		return false
+	}
+	switch x := e.(type) {
+	case *ssa.Call:
+		switch callKey(&x.Call) {
+		case "fmt.Errorf", "errors.New", "google.golang.org/grpc/status.Error", "google.golang.org/grpc/status.Errorf", "cosmossdk.io/errors.New":
+			return true
+		case "cosmossdk.io/errors.Wrap", "cosmossdk.io/errors.Wrapf", "github.com/pkg/errors.Wrap", "github.com/pkg/errors.Wrapf":
+			if len(x.Call.Args) > 0 {
+				return definitelyNonNilErr(ret, x.Call.Args[0])
+			}
+			return false
+		}
+	case *ssa.UnOp:
+		if _, ok := x.X.(*ssa.Global); ok && x.Op == token.MUL {
+			return true // a package-level sentinel error
+		}
+	case *ssa.MakeInterface:
+		return true
+	}
+	return guarded(e)
 }
